@@ -64,7 +64,7 @@ fn forge(ctx: &mut Ctx, fc: &mut FinalCtx, thorough_bit: Option<usize>, special:
         }
         Special::None => {}
     }
-    let family = if thorough_bit.is_some() { 1 } else { ctx.choose("forgery_family", 14) };
+    let family = if thorough_bit.is_some() { 1 } else { ctx.choose("forgery_family", 15) };
     match family {
         0 => {
             let t = fc.seal.seal(&honest_plain);
@@ -136,6 +136,31 @@ fn forge(ctx: &mut Ctx, fc: &mut FinalCtx, thorough_bit: Option<usize>, special:
             let at = ctx.choose("truncate_at", r.len() as u64) as usize;
             r.truncate(at);
             (vec![r], Expect::Reject, "truncated".into())
+        }
+        14 => {
+            // two flipped bits: in the checksum at the same bit position of two bytes (cancels in any XOR-folded
+            // comparison), or anywhere in the token
+            let t = fc.seal.seal(&honest_plain);
+            let mut r = reply(v, t.clone());
+            let tok_off = r.len() - t.len();
+            let name;
+            if ctx.chance("two_bits_anywhere", 1, 2) {
+                let a = ctx.choose("bit_a", (t.len() * 8) as u64) as usize;
+                let mut b = ctx.choose("bit_b", (t.len() * 8) as u64) as usize;
+                if b == a { b = (a + 8) % (t.len() * 8); }
+                r[tok_off + a / 8] ^= 1 << (a % 8);
+                r[tok_off + b / 8] ^= 1 << (b % 8);
+                name = "two-bit-flip@token";
+            } else {
+                let bit = ctx.choose("cs_bit", 8);
+                let i = 4 + ctx.choose("cs_byte_a", 8) as usize;
+                let mut j = 4 + ctx.choose("cs_byte_b", 8) as usize;
+                if j == i { j = 4 + (i - 4 + 1) % 8; }
+                r[tok_off + i] ^= 1 << bit;
+                r[tok_off + j] ^= 1 << bit;
+                name = "two-bit-flip@checksum-same-position";
+            }
+            (vec![r], Expect::Reject, name.to_string())
         }
         12 => {
             // a strict prefix of key+1 (down to nothing), correctly sealed: numerically another value
